@@ -8,7 +8,10 @@ from gen import sx
 EXE = os.path.join(ROOT, "staticharness", "target", "debug", "staticharness")
 ALPHAS = {"C11": {0: "ab", 1: "ab", 2: "ab", 3: "f([x", 4: "abcd", 5: "abc", 6: "ab", 7: "abc", 8: "ab", 9: "19-", 10: "ab+"},
           # C12: second define refused; clone / drop / box of recursive handles; mutual declare/define
-          "C12": {20: "()x", 21: "()", 22: "()[]"}}
+          "C12": {20: "()x", 21: "()", 22: "()[]"},
+          # C19: statically typed outputs with destructors - a zero-sized one and a one-byte one - through group([..;N]), collect_exactly,
+          # tuple group, Vec collect, folds; parse and check; every value created must be dropped exactly once
+          "C19": {30: "ab", 31: "ab", 32: "ab", 33: "ab"}}
 
 def build(timeout=900):
     d = os.path.join(ROOT, "staticharness")
@@ -55,7 +58,9 @@ def run(pid, tier, seed):
         else: bad.append((c, sid, s, r))
     if bad:
         c, sid, s, r = min(bad, key=lambda x: (len(x[2]), x[1]))
-        res["violations"].append(("oracle", ("a statically typed memoized grammar differs from its unmemoized twin" if pid == "C11" else "a recursive handle (second define / clone / drop / box / mutual declare-define) misbehaves"),
+        res["violations"].append(("oracle", ("a statically typed memoized grammar differs from its unmemoized twin" if pid == "C11" else
+                                             "an output value with a destructor (zero-sized or not) is leaked or dropped twice" if pid == "C19" else
+                                             "a recursive handle (second define / clone / drop / box / mutual declare-define) misbehaves"),
                                   dict(static_case=sx([1, sid, [ord(ch) for ch in s]]), static_id=sid, input=s, result=r[:600], n_failures=len(bad),
                                        note="see /verif/staticharness/src/main.rs for the grammar with this static-id; M = memoized, P = plain")))
     return res
